@@ -221,6 +221,45 @@ pub fn run(env: &Env) -> Report {
                 }
             }
         }
+        // the DATA FILE of the user (auto-correct list) is edited and then removed while a warm context lives; after the configuration is
+        // reloaded the warm context and a brand-new one see the same files, so they must show the same suggestions — also for the
+        // words the warm context composed (and memoised) under the old file
+        if ui % 8 == 2 {
+            let case = format!("c05-{}-userfile", ui);
+            t.line(&format!("case {}", case));
+            let xdg = env.fresh_xdg(&case);
+            let mut opts = Opts::none(); opts.phonetic_suggestion = true; opts.english = ui % 16 == 2;
+            let acp = user_dir(&xdg).join("autocorrect.json");
+            let v1: HashMap<String, String> = [("bd", "bangladesh"), ("ami", "tumi"), ("atm", "atom"), ("kor", "kOr")].iter().map(|(a, b)| (a.to_string(), b.to_string())).collect();
+            std::fs::write(&acp, serde_json::to_string(&v1).unwrap()).unwrap();
+            if let Some(mut warm) = Sess::new(&mut t, &env.data, "warm", PHONETIC, opts, &xdg) {
+                warm.follow_sel = false;
+                let probe = ["bd", "bder", "ami", "amike", "atm", "atme", "kor", "korei", "bon"];
+                for w in probe { warm.type_text(&mut t, w); warm.finish(&mut t); }
+                for step in 0..2 {
+                    if step == 0 {
+                        let v2: HashMap<String, String> = [("bd", "bideshi"), ("kor", "kar"), ("bon", "bondhu")].iter().map(|(a, b)| (a.to_string(), b.to_string())).collect();
+                        std::fs::write(&acp, serde_json::to_string(&v2).unwrap()).unwrap();
+                        if let Ok(f) = std::fs::OpenOptions::new().write(true).open(&acp) { let _ = f.set_modified(std::time::SystemTime::now() + std::time::Duration::from_secs(3600)); }
+                    } else { let _ = std::fs::remove_file(&acp); }
+                    warm.update(&mut t, PHONETIC, opts);
+                    let id = format!("new{}", step);
+                    let mut fresh = match Sess::new(&mut t, &env.data, &id, PHONETIC, opts, &xdg) { Some(mut s) => { s.follow_sel = false; s } None => break };
+                    for w in probe {
+                        let (ow, of) = (warm.type_text(&mut t, w), fresh.type_text(&mut t, w));
+                        rep.eval(Some(&format!("userfile|{}|{}|{}", ui, step, w))); rep.count("user-file-change-word");
+                        if !same(&ow, &of) {
+                            rep.violation("C05", "warm-context-differs", format!("user auto-correct file {} + configuration reloaded: {:?} in the warm context {:?} vs brand-new context {:?}", if step == 0 { "edited" } else { "removed" }, w, render_obs(&ow, true), render_obs(&of, true)),
+                                json!({"stream": "c05", "layout": PHONETIC, "opts": opts.bits_str(), "target": w, "variant": "user file changed under a warm context", "store": false, "events": warm.events}));
+                            break;
+                        }
+                        warm.finish(&mut t); fresh.finish(&mut t);
+                    }
+                    t.line(&format!("drop {}", id));
+                }
+                t.line("drop warm");
+            }
+        }
         t.flush();
         rep
     });
